@@ -94,8 +94,7 @@ def run_case(case, ctx):
 					args += ['-q', p]
 			else:
 				lf = os.path.join(d, 'ql.txt')
-				with open(lf, 'w', encoding='utf-8') as f:
-					f.write('\n'.join(rel) + ('\n' if case['seed'] % 2 else ''))
+				H.write_listfile(lf, rel, case.get('list_style', 0))
 				args += ['--ql', lf, '--qdir', os.path.join(d, 'qbase')]
 		# references
 		if rmode == 'rs':
@@ -128,8 +127,7 @@ def run_case(case, ctx):
 					args += ['-r', p]
 			else:
 				lf = os.path.join(d, 'rl.txt')
-				with open(lf, 'w', encoding='utf-8') as f:
-					f.write('\n'.join(rel) + '\n')
+				H.write_listfile(lf, rel, (case.get('list_style', 0) + 2) % 5)
 				args += ['--rl', lf, '--rdir', os.path.join(d, 'rbase')]
 		if case['cores'] is not None:
 			args += ['-c', str(case['cores'])]
@@ -232,6 +230,7 @@ def gen_case(draw, tier):
 		'progress': draw(st.booleans()),
 		'int_ids': draw(st.booleans()),
 		'relative': draw(st.sampled_from([False, True, False])),
+		'list_style': draw(st.integers(0, 4)),
 		'prerun': draw(st.sampled_from([False, False, False, True])),
 	}
 	if rmode == 'use_db':
